@@ -2,6 +2,7 @@ package engines
 
 import (
 	"bytes"
+	"encoding/binary"
 	"errors"
 	"fmt"
 	"io"
@@ -27,14 +28,15 @@ import (
 const (
 	c18TargetFrom   = 0 // DecodeBytecodeFrom(reader)
 	c18TargetUnm    = 1 // (*Bytecode).UnmarshalBinary
-	c18TargetObject = 2 // DecodeObject
-	c18NumTargets   = 3
+	c18TargetObject = 2 // DecodeObject from a reader that knows its length
+	c18TargetStream = 3 // DecodeObject from an opaque stream (no Len, short reads)
+	c18NumTargets   = 4
 	// replay-only pseudo targets
-	c18ReplayChunk     = 3 // short-read metamorphic oracle on DecodeBytecodeFrom
-	c18ReplayReaderErr = 4 // reader fails after the recorded bytes
+	c18ReplayChunk     = 4 // short-read metamorphic oracle on DecodeBytecodeFrom
+	c18ReplayReaderErr = 5 // reader fails after the recorded bytes
 )
 
-var c18TargetNames = []string{"DecodeBytecodeFrom", "Bytecode.UnmarshalBinary", "DecodeObject"}
+var c18TargetNames = []string{"DecodeBytecodeFrom", "Bytecode.UnmarshalBinary", "DecodeObject", "DecodeObject(stream)"}
 
 var numRe = regexp.MustCompile(`[0-9]+`)
 var hexRe = regexp.MustCompile(`0x[0-9a-f]+`)
@@ -148,6 +150,14 @@ func c18Decode(target int, data []byte, mm *ugo.ModuleMap, rd io.Reader) (res c1
 			res.ok = true
 			res.fp = sim.Fingerprint((*ugo.Bytecode)(&bc))
 		}
+	case c18TargetStream:
+		// an io.Reader that cannot report its length (file, connection, bufio): 7-byte reads
+		o, err := encoder.DecodeObject(&faultyReader{data: data, chunk: 7, failAt: -1})
+		res.err = err
+		if err == nil {
+			res.ok = true
+			_ = o
+		}
 	case c18TargetObject:
 		o, err := encoder.DecodeObject(bytes.NewReader(data))
 		res.err = err
@@ -196,6 +206,31 @@ func c18Check(rc *sim.RunCtx, target int, data []byte, mm *ugo.ModuleMap, what s
 }
 
 var errInjected = errors.New("injected read error")
+
+// c18LengthPatterns are well-formed length fields of the format (count byte + zig-zag varint) with extreme values,
+// plus malformed ones.
+var c18LengthPatterns = func() [][]byte {
+	var out [][]byte
+	for _, v := range []int64{1 << 16, 1 << 20, 1 << 24, 1 << 26, 1 << 31, 1 << 40, 1<<62 + 5, -7} {
+		b := make([]byte, 1+binary.MaxVarintLen64)
+		n := binary.PutVarint(b[1:], v)
+		b[0] = byte(n)
+		out = append(out, b[:n+1])
+	}
+	out = append(out, []byte{10, 0xFF, 0xFF, 0xFF, 0xFF, 0xFF, 0xFF, 0xFF, 0xFF, 0xFF, 0x01}, []byte{11, 0x80}, []byte{0xFF}, []byte{3, 0x80, 0x80, 0x80})
+	return out
+}()
+
+// c18SizedTagOffsets lists the offsets whose byte equals the tag of a size-prefixed type (string … builtin function).
+func c18SizedTagOffsets(d []byte) []int {
+	var out []int
+	for i, b := range d {
+		if b >= 7 && b <= 14 {
+			out = append(out, i)
+		}
+	}
+	return out
+}
 
 // c18ChunkOracle: delivering the same bytes in short reads never changes the
 // result (success and decoded program; error texts are not compared because
@@ -288,14 +323,14 @@ func c18Run(rc *sim.RunCtx) {
 		rc.Probe("v1-downgrade-built")
 	}
 	if ob, err := encoder.Array(bc.Constants).MarshalBinary(); err == nil && len(ob) < 1500 {
-		inputs = append(inputs, c18Input{"object:constants", []int{c18TargetObject}, ob})
+		inputs = append(inputs, c18Input{"object:constants", []int{c18TargetObject, c18TargetStream}, ob})
 	}
 	if ob, err := (*encoder.CompiledFunction)(bc.Main).MarshalBinary(); err == nil {
-		inputs = append(inputs, c18Input{"object:main", []int{c18TargetObject}, ob})
+		inputs = append(inputs, c18Input{"object:main", []int{c18TargetObject, c18TargetStream}, ob})
 	}
 	extra := ugo.Array{ugo.Map{"e": &ugo.Error{Name: "N", Message: "m"}}, &ugo.SyncMap{Value: ugo.Map{"a": ugo.Int(1)}}, ugo.Bytes{1, 2}, ugo.Char('x'), ugo.Uint(7), ugo.Float(1.5)}
 	if ob, err := encoder.Array(extra).MarshalBinary(); err == nil {
-		inputs = append(inputs, c18Input{"object:gob-and-syncmap", []int{c18TargetObject}, ob})
+		inputs = append(inputs, c18Input{"object:gob-and-syncmap", []int{c18TargetObject, c18TargetStream}, ob})
 	}
 
 	// control: every valid input decodes
@@ -346,6 +381,23 @@ func c18Run(rc *sim.RunCtx) {
 				}
 			}
 		}
+		// every length field × extreme well-formed lengths
+		for _, in := range inputs {
+			d := in.data
+			for _, off := range c18SizedTagOffsets(d) {
+				for _, pat := range c18LengthPatterns {
+					for _, tg := range in.target {
+						c := append([]byte(nil), d[:off+1]...)
+						c = append(c, pat...)
+						if rest := off + 1 + len(pat); rest < len(d) {
+							c = append(c, d[rest:]...)
+						}
+						c18Check(rc, tg, c, mm, fmt.Sprintf("%s length field at %d := %x", in.name, off+1, pat))
+						rc.Fault("extreme-length-field")
+					}
+				}
+			}
+		}
 		rc.Sig = fmt.Sprintf("enum prog=%d len=%d", prog, len(v2))
 		rc.Sample = map[string]any{"kind": "enumeration", "program": src, "v2_len": len(v2), "inputs": len(inputs), "cases": rc.SubEvals}
 		rc.Logf("prog=%d len=%d cases=%d", prog, len(v2), rc.SubEvals)
@@ -365,8 +417,46 @@ func c18Run(rc *sim.RunCtx) {
 			}
 			return int(bulk.Rand() % uint64(m))
 		}
-		kind := r(8)
+		kind := r(12)
 		switch kind {
+		case 8: // lost write in the middle: a region disappears, the rest moves up
+			st, sz := r(L), 1+r(24)
+			if st+sz > L {
+				sz = L - st
+			}
+			d = append(d[:st], d[st+sz:]...)
+			rc.Fault("region-lost")
+		case 9: // duplicated write: a region appears twice
+			st, sz := r(L), 1+r(24)
+			if st+sz > L {
+				sz = L - st
+			}
+			dup := append([]byte(nil), d[st:st+sz]...)
+			d = append(d[:st+sz], append(dup, d[st+sz:]...)...)
+			rc.Fault("region-duplicated")
+		case 10: // a length/varint field replaced by an extreme encoding
+			pats := c18LengthPatterns
+			pat := pats[r(len(pats))]
+			st := r(L)
+			if tags := c18SizedTagOffsets(d); len(tags) > 0 && r(4) > 0 {
+				st = tags[r(len(tags))] + 1 // right after a type tag: where a length field sits
+				if st >= L {
+					st = L - 1
+				}
+			}
+			if r(2) == 0 { // overwrite
+				copy(d[st:], pat)
+			} else { // insert
+				d = append(d[:st], append(append([]byte(nil), pat...), d[st:]...)...)
+			}
+			rc.Fault("extreme-varint")
+		case 11: // type tag swapped for another valid tag
+			st := r(L)
+			d[st] = byte(r(16))
+			if r(4) == 0 {
+				d[st] = 255
+			}
+			rc.Fault("tag-swap")
 		case 0: // double corruption
 			d[r(L)] = byte(bulk.Rand())
 			d[r(L)] = byte(bulk.Rand())
@@ -428,7 +518,7 @@ func c18Sizes(tier string) (programs, sampledRuns int) {
 	if tier == "thorough" {
 		return 1400, 40000
 	}
-	return 24, 240
+	return 12, 160
 }
 
 func init() {
@@ -436,8 +526,8 @@ func init() {
 		ID:    "C18",
 		Level: "fault_enumeration",
 		Rule: "programs = fixed corpus + tape-generated scripts; per program the valid encodings are: v2 bytecode, the v2 payload under a v1 header, a down-converted v1 program, " +
-			"the constants array, the main function and a gob/SyncMap object array. Enumeration runs apply EVERY truncation and EVERY offset × {^b, b+1, 0x00, 0xFF, one random bit} to each encoding and feed it to every applicable target " +
-			"(DecodeBytecodeFrom, Bytecode.UnmarshalBinary, DecodeObject); sampled runs apply double corruption, lost sector, misdirected write, garbage tail, truncation+corruption, 0xFF runs, short reads and reader errors. " +
+			"the constants array, the main function and a gob/SyncMap object array. Enumeration runs apply EVERY truncation, EVERY offset × {^b, b+1, 0x00, 0xFF, one random bit} and EVERY byte that looks like a sized-type tag × 12 extreme length fields to each encoding and feed it to every applicable target " +
+			"(DecodeBytecodeFrom, Bytecode.UnmarshalBinary, DecodeObject); sampled runs apply double corruption, lost sector, misdirected write, garbage tail, truncation+corruption, 0xFF runs, lost and duplicated regions, extreme varint encodings, tag swaps, short reads and reader errors. " +
 			"evaluations = decode calls on faulted inputs; a run is non-trivial when it executed its whole fault list; distinct = distinct (program, batch) pairs.",
 		Assumptions: []string{
 			"allocation 'out of proportion' is read as more than 16 MiB + 256 × input length of heap allocated by one decode call (runtime/metrics /gc/heap/allocs:bytes delta)",
